@@ -428,7 +428,7 @@ func runC13(c *Ctx) {
 	c.rule("R5", "single addresses load as full-length prefixes", 2)
 	if f := c.fn(relNetlist, "", "LoadFromText"); f != nil {
 		good := false
-		eachInstr(f, func(in ssa.Instruction) {
+		eachInstrDeep(f, func(_ *ssa.Function, in ssa.Instruction) {
 			ci, ok := in.(*ssa.Call)
 			if !ok || callName(ci) != "net/netip.PrefixFrom" {
 				return
